@@ -82,7 +82,7 @@ INFO = {
         "ref": "DESIGN.md 4 C14",
     },
     "C15": {
-        "text": "Partial: RateCounter window arithmetic (BMC over add/rate sequences with symbolic times and sizes); AimdRateControl.update executed from an arbitrary controller state for 1..3 consecutive calls (never raises, an estimate that rises stays <= 1.5 x latest measurement + 10 kbit/s, over-use cuts to <= 85 % of the latest measurement) with its two pow/float helpers replaced by their integer contracts, which are checked separately (_near_max_rate_increase / _additive_rate_increase / _clamp_bitrate); the estimator orchestration (SSRC list, REMB encodability, measurement window) with the Kalman/over-use pipeline stubbed by arbitrary values; a concrete-count run with 256 SSRCs.",
+        "text": "Partial: RateCounter window arithmetic (BMC over add/rate sequences with symbolic times and sizes); AimdRateControl.update executed from an arbitrary controller state for 1..3 consecutive calls (never raises, an estimate that rises stays <= 1.5 x latest measurement + 10 kbit/s, over-use cuts to <= 85 % of the latest measurement) with its two pow/float helpers replaced by their integer contracts, which are checked separately (_near_max_rate_increase / _additive_rate_increase / _clamp_bitrate), and the float EWMA _update_max_throughput_estimate checked on its own for 'never raises' (no ZeroDivisionError at zero throughput) with floats modelled as exact rationals of symbolic integers; the estimator orchestration (SSRC list, REMB encodability, measurement window) with the Kalman/over-use pipeline stubbed by arbitrary values; a concrete-count run with 256 SSRCs.",
         "note": "Not claimed: InterArrival / OveruseEstimator / OveruseDetector numerics (float recursion), avg_max_bitrate_kbps other than None/1000.0 (sqrt). Bounds: window 2..3 (quick) / 2..8 ms, sequences of 4..5 calls, <=3 packets in the orchestration, rates 0..2^32-1. Quotients of integers are exact rationals; round(0.85*T) is over-approximated by an integer band (DESIGN 10.2); sites are listed in evidence. The linear arithmetic of update() is decided on the integer mirror of the path condition.",
         "ref": "DESIGN.md 4 C15, 10.2",
     },
